@@ -25,9 +25,23 @@ def parse_retention(s):
   return (p, n)
 
 
+def sections(text):
+  """The sections of the file in file order.  The files are INI files read with Python's ConfigParser: a section named
+  exactly DEFAULT is that dialect's defaults section - every other section inherits the keys it does not set itself - and
+  carbon additionally lists it like any other section at its position in the file."""
+  secs = read_ini(text)
+  defaults = {}
+  for name, o in secs:
+    if name == 'DEFAULT':
+      defaults.update(o)
+  if not defaults:
+    return secs
+  return [(name, dict(defaults, **o)) for name, o in secs]
+
+
 def load_schemas(text):
   out = []
-  for name, o in read_ini(text):
+  for name, o in sections(text):
     if 'retentions' not in o or not o.get('pattern'):
       continue
     out.append((name, re.compile(o['pattern']), [parse_retention(x) for x in o['retentions'].split(',')]))
@@ -43,7 +57,7 @@ def retentions_for(schemas, metric):
 
 def load_aggregation(text):
   out = []
-  for name, o in read_ini(text):
+  for name, o in sections(text):
     if not o.get('pattern'):
       continue
     xff = o.get('xfilesfactor')
